@@ -128,3 +128,9 @@ def run(repo: Repo, rep: Report, tier: str) -> None:
     rep.floor("R02.4", 3)
     from ..core import regget
     regget.report(repo, rep, "R02.6", {"first-match-in-order", "raise-otherwise", "real-type"})
+    # rules of sibling properties that are necessary conditions of this one as well (same rule ids)
+    from ..core.report import Only
+    from ..core import siblings as _sib
+    from . import c11 as _c11
+    _sib.check_nested_builders(repo, rep, "R15.6")
+    _c11._pack_union(repo, Only(rep, {"R11.8"}), tier)
